@@ -213,9 +213,160 @@ def history_case(rng):
             return f"[ {o[0]} ]"
         return {"fn": "history", "kind": "history-" + spec[0], "args": [spec, ops, q],
                 "op": f"history {enc_spec(spec)} [ {' '.join(enc_op(o) for o in ops)} ] {C.enc(q)}"}
-    which = rng.choice(["vs2d", "spline", "linear", "cubic", "splinecv-free"])
+    which = rng.choice(["vs2d", "spline", "linear", "cubic", "splinecv-free", "knn-small-first", "chain-reduce", "chain-mean", "chain-reduce-knn"])
     sets = [dataset(rng, rng.randint(6, 10), 2 if which == "vs2d" else 1) for _ in range(rng.randint(1, 3))]
+    if which == "knn-small-first":          # first fitted on fewer points than neighbours (fit alone is fine), then on a full dataset
+        sets = [dataset(rng, rng.randint(1, 3), 1)] + sets
+    if which.startswith("chain-") and len(sets) > 1 and rng.random() < 0.7:      # later datasets cover a different area
+        for k, (c, d, w) in enumerate(sets[1:], 1):
+            c[0][:] = [v * 3.0 + 40.0 * k for v in c[0]]
+            c[1][:] = [v * 2.0 - 25.0 * k for v in c[1]]
+    if which in ("chain-reduce", "chain-reduce-knn"):
+        sets = [(c, d, None) for c, d, w in sets]
     return {"fn": "history-real", "kind": "history-" + which, "args": [which, sets, q], "op": "power_comb 0", "key": repr((which, sets))}
+
+
+# ----------------------------------------------------------------------------- (b') queries leave the object they are called on / given untouched
+def _fit(g, a, vector=False, weights=False):
+    d = (a["d"], a["d2"]) if vector else a["d"]
+    w = None if not weights else ((a["w"], a["w"]) if vector else a["w"])
+    return g.fit((a["e"], a["n"]), d, w)
+
+
+def _cvs(obj, a, **kw):
+    return vd.cross_val_score(obj, (a["e"], a["n"]), a["d"], cv=KFold(3, shuffle=True, random_state=1), **kw)
+
+
+_EST_QUERIES = [("predict", lambda g, a: g.predict((a["e"][:5] + 0.25, a["n"][:5] - 0.5))), ("score", lambda g, a: g.score((a["e"], a["n"]), a["d"])),
+                ("grid", lambda g, a: g.grid(region=REG, spacing=2.5)), ("scatter", lambda g, a: g.scatter(region=REG, size=5, random_state=0)),
+                ("profile", lambda g, a: g.profile((0.0, 1.0), (4.0, -2.0), 5)), ("cross_val_score", _cvs),
+                ("cross_val_score-delayed", lambda g, a: __import__("dask").compute(*_cvs(g, a, delayed=True), scheduler="synchronous"))]
+_VEC_QUERIES = [("predict", lambda g, a: g.predict((a["e"][:5] + 0.25, a["n"][:5] - 0.5))), ("score", lambda g, a: g.score((a["e"], a["n"]), (a["d"], a["d2"]))),
+                ("grid", lambda g, a: g.grid(region=REG, spacing=2.5)),
+                ("cross_val_score", lambda g, a: vd.cross_val_score(g, (a["e"], a["n"]), (a["d"], a["d2"]), cv=KFold(3, shuffle=True, random_state=1)))]
+_RED_QUERIES = [("filter", lambda g, a: g.filter((a["e"], a["n"]), a["d"])),
+                ("filter-elsewhere", lambda g, a: g.filter((a["e"] * 3.0 + 40.0, a["n"] * 2.0 - 25.0), a["d2"])),
+                ("filter-weights", lambda g, a: g.filter((a["e"], a["n"]), a["d"], a["w"]))]
+_CV_QUERIES = [("split", lambda g, a: list(g.split(np.column_stack([a["e"], a["n"]])))), ("get_n_splits", lambda g, a: g.get_n_splits()),
+               ("cross_val_score", lambda g, a: vd.cross_val_score(vd.Trend(1), (a["e"], a["n"]), a["d"], cv=g))]
+OBJECTS = {
+    "Trend-fitted": (lambda a: _fit(vd.Trend(1), a, weights=True), _EST_QUERIES),
+    "Trend-unfitted": (lambda a: vd.Trend(1), _EST_QUERIES[5:]),
+    "Spline-fitted": (lambda a: _fit(vd.Spline(damping=1e-3), a), _EST_QUERIES),
+    "Spline-unfitted": (lambda a: vd.Spline(damping=1e-3), _EST_QUERIES[5:]),
+    "KNeighbors-fitted": (lambda a: _fit(vd.KNeighbors(k=3), a), _EST_QUERIES),
+    "KNeighbors-unfitted": (lambda a: vd.KNeighbors(k=3), _EST_QUERIES[5:]),
+    "Linear-fitted": (lambda a: _fit(vd.Linear(), a), _EST_QUERIES[:5]),
+    "Chain-fitted": (lambda a: _fit(vd.Chain([("mean", vd.BlockMean(spacing=1.0)), ("trend", vd.Trend(1)), ("knn", vd.KNeighbors(k=2))]), a), _EST_QUERIES),
+    "Chain-unfitted": (lambda a: vd.Chain([("reduce", vd.BlockReduce(np.median, spacing=1.0)), ("trend", vd.Trend(1))]), _EST_QUERIES[5:]),
+    "Vector-fitted": (lambda a: _fit(vd.Vector([vd.Trend(1), vd.Spline(damping=1e-2)]), a, vector=True), _VEC_QUERIES),
+    "Vector-unfitted": (lambda a: vd.Vector([vd.Trend(1), vd.Trend(2)]), _VEC_QUERIES[3:]),
+    "VectorSpline2D-fitted": (lambda a: _fit(vd.VectorSpline2D(damping=1e-2), a, vector=True), _VEC_QUERIES),
+    "VectorSpline2D-unfitted": (lambda a: vd.VectorSpline2D(damping=1e-2), _VEC_QUERIES[3:]),
+    "BlockReduce": (lambda a: vd.BlockReduce(np.median, spacing=2.5), _RED_QUERIES[:2]),
+    "BlockReduce-average-centre": (lambda a: vd.BlockReduce(np.average, spacing=2.5, center_coordinates=True), _RED_QUERIES),
+    "BlockMean": (lambda a: vd.BlockMean(spacing=2.5), _RED_QUERIES),
+    "BlockMean-uncertainty": (lambda a: vd.BlockMean(spacing=2.5, uncertainty=True), _RED_QUERIES[2:]),
+    "BlockKFold": (lambda a: vd.BlockKFold(spacing=2.5, n_splits=3, shuffle=True, random_state=4), _CV_QUERIES),
+    "BlockKFold-unshuffled": (lambda a: vd.BlockKFold(spacing=2.5, n_splits=3), _CV_QUERIES),
+    "BlockShuffleSplit": (lambda a: vd.BlockShuffleSplit(spacing=2.5, n_splits=3, test_size=0.3, random_state=4), _CV_QUERIES),
+    "CheckerBoard": (lambda a: vd.synthetic.CheckerBoard(region=REG), _EST_QUERIES[:1] + _EST_QUERIES[2:5]),
+}
+
+
+# ----------------------------------------------------------------------------- (b'') reconfigured objects behave like fresh ones
+def _run_est(g, a):
+    return _est(g, a)
+
+
+def _run_red(g, a):
+    return g.filter((a["e"], a["n"], a["up"]), a["d"])
+
+
+def _run_redw(g, a):
+    return g.filter((a["e"], a["n"]), a["d"], a["w"])
+
+
+def _run_cv(g, a):
+    return [[tr.tolist(), te.tolist()] for tr, te in g.split(np.column_stack([a["e"], a["n"]]))]
+
+
+RECONF = {
+    "Trend-degree": (vd.Trend, {"degree": 1}, {"degree": 2}, _run_est),
+    "Spline-damping-mindist": (vd.Spline, {"damping": 1e-3}, {"damping": 1e-1, "mindist": 0.5}, _run_est),
+    "KNeighbors-k-reduction": (vd.KNeighbors, {"k": 1}, {"k": 3, "reduction": np.median}, _run_est),
+    "BlockReduce-reduction": (vd.BlockReduce, {"reduction": np.mean, "spacing": 2.5}, {"reduction": np.median}, _run_red),
+    "BlockReduce-reduction-weighted": (vd.BlockReduce, {"reduction": np.mean, "spacing": 2.5}, {"reduction": np.average, "center_coordinates": True}, _run_redw),
+    "BlockReduce-spacing-region": (vd.BlockReduce, {"reduction": np.median, "spacing": 2.5}, {"spacing": 4.0, "region": (-1.0, 11.0, -6.0, 6.0), "drop_coords": False}, _run_red),
+    "BlockMean-uncertainty": (vd.BlockMean, {"spacing": 2.5}, {"uncertainty": True, "spacing": 3.0}, _run_redw),
+    "BlockKFold": (vd.BlockKFold, {"spacing": 2.5, "n_splits": 3}, {"n_splits": 4, "shuffle": True, "random_state": 3, "balance": False}, _run_cv),
+    "BlockShuffleSplit": (vd.BlockShuffleSplit, {"spacing": 2.5, "n_splits": 3, "random_state": 1}, {"test_size": 0.4, "random_state": 5, "balancing": 3}, _run_cv),
+    "Chain-steps": (lambda steps=None: vd.Chain(steps if steps is not None else [("trend", vd.Trend(1))]), {},
+                    {"steps": [("reduce", vd.BlockReduce(np.median, spacing=1.0)), ("trend", vd.Trend(2))]}, _run_est),
+    "Vector-components": (lambda components=None: vd.Vector(components if components is not None else [vd.Trend(1), vd.Trend(1)]), {},
+                          {"components": [vd.Trend(2), vd.KNeighbors(k=2)]}, lambda g, a: _est(g, a, vector=True)),
+}
+
+
+def clone_params(p):
+    """Fresh, unfitted copies of the estimators inside a parameter dictionary."""
+    def cp(v):
+        if hasattr(v, "get_params"):
+            return clone(v)
+        if isinstance(v, (list, tuple)):
+            return type(v)(cp(x) for x in v)
+        return v
+    return {k: cp(v) for k, v in p.items()}
+
+
+def _run_reconf(name, seed, how, used_first):
+    ctor, p1, p2, runner = RECONF[name]
+    p2 = clone_params(p2)
+    with warnings.catch_warnings():
+        warnings.simplefilter("ignore")
+        g = ctor(**p1)
+        if used_first:                       # the object has already been used with its first configuration
+            try:
+                runner(g, _data(seed + 1))
+            except TypeError:                # (weights given to a reduction that takes none: the first use need not succeed)
+                pass
+        if hasattr(g, "set_params") and (how == "set_params" or any("__" in k for k in p2)):
+            g.set_params(**p2)
+        else:
+            for k, v in p2.items():
+                setattr(g, k, v)
+        got = _canon_any(runner(g, _data(seed)))
+        fresh = ctor(**{**p1, **clone_params(p2)})
+        exp = _canon_any(runner(fresh, _data(seed)))
+        return {"same": _eq(got, exp), "params": not hasattr(g, "get_params") or C.params_state(g) == C.params_state(fresh)}
+
+
+def _run_objstate(name, seed):
+    """Every query is run on the SAME object; its complete state (all attributes, nested estimators, arrays by bytes) must stay what it was,
+    and a query repeated at the end must answer what it answered the first time."""
+    build, queries = OBJECTS[name]
+    with warnings.catch_warnings():
+        warnings.simplefilter("ignore")
+        a = _data(seed)
+        obj = build(a)
+        state0 = C.deep_state(obj)
+        first = None
+        for label, q in queries:
+            r = _canon_any(q(obj, _data(seed)))
+            first = r if first is None else first
+            if C.deep_state(obj) != state0:
+                return {"changed_by": label, "repeat": True}
+        again = _canon_any(queries[0][1](obj, _data(seed)))
+        return {"changed_by": None, "repeat": _eq(first, again)}
+
+
+def _canon_any(x):
+    if isinstance(x, (list, tuple)):
+        return [_canon_any(i) for i in x]
+    try:
+        return _canon(x)
+    except Exception:  # noqa: BLE001
+        return repr(x)
 
 
 # ----------------------------------------------------------------------------- (c) inconsistencies
@@ -297,6 +448,9 @@ def corpus():
     cs = [purity_case(name, 1) for name in CALLABLES]
     cs += [{"fn": "reject", "kind": "reject", "args": [name], "op": "power_comb 0", "key": name} for name in REJECTS]
     cs += [{"fn": "unfitted", "kind": "unfitted", "args": [name], "op": "power_comb 0", "key": name} for name in UNFITTED]
+    cs += [{"fn": "objstate", "kind": "objstate-" + name.split("-")[0], "args": [name, 1], "op": "power_comb 0", "key": f"objstate:{name}:1"} for name in OBJECTS]
+    cs += [{"fn": "reconf", "kind": "reconf-" + name.split("-")[0], "args": [name, 1, how, used], "op": "power_comb 0", "key": f"reconf:{name}:{how}:{used}"}
+           for name in RECONF for how in ("set_params", "setattr") for used in (False, True)]
     return cs
 
 
@@ -306,7 +460,11 @@ def generate(rng, tier):
     names = list(CALLABLES)
     for i in range(n):
         u = rng.random()
-        if u < 0.3:
+        if u < 0.08:
+            name = rng.choice(list(OBJECTS))
+            sd = rng.randint(2, 10**6)
+            cs.append({"fn": "objstate", "kind": "objstate-" + name.split("-")[0], "args": [name, sd], "op": "power_comb 0", "key": f"objstate:{name}:{sd}"})
+        elif u < 0.3:
             cs.append(purity_case(rng.choice(names), rng.randint(2, 10**6)))
         elif u < 0.65:
             cs.append(history_case(rng))
@@ -324,6 +482,14 @@ def _build_real(which, first_coords=None):
         return vd.Linear()
     if which == "cubic":
         return vd.Cubic()
+    if which == "knn-small-first":
+        return vd.KNeighbors(k=4, reduction=np.median)
+    if which == "chain-reduce":            # reducers with the DEFAULT region (taken from each dataset) inside a chain
+        return vd.Chain([("reduce", vd.BlockReduce(np.median, spacing=3.0)), ("trend", vd.Trend(1))])
+    if which == "chain-mean":
+        return vd.Chain([("mean", vd.BlockMean(spacing=3.0)), ("trend", vd.Trend(1))])
+    if which == "chain-reduce-knn":
+        return vd.Chain([("reduce", vd.BlockReduce(np.mean, spacing=2.0, center_coordinates=True)), ("knn", vd.KNeighbors(k=1))])
     return vd.Spline()
 
 
@@ -336,6 +502,10 @@ def impl(case):
             warnings.simplefilter("ignore")
             if fn == "purity":
                 return ["purity", _run_purity(a[0], a[1])]
+            if fn == "objstate":
+                return ["objstate", _run_objstate(a[0], a[1])]
+            if fn == "reconf":
+                return ["reconf", _run_reconf(*a)]
             if fn == "reject":
                 try:
                     REJECTS[a[0]]()
@@ -360,9 +530,14 @@ def impl(case):
                 return r if C.is_err(r) else "accepted"
             if fn == "history":
                 spec, ops, q = a
+                prev = "nothing"
                 g = build_spec(spec)
                 qq = tuple(np.array(x) for x in q)
+                params0 = C.params_state(g)
                 for o in ops:
+                    if C.params_state(g) != params0:
+                        raise RuntimeError("hyper-parameters (get_params) changed by " + prev)
+                    prev = o[0]
                     if o[0] == "fit":
                         c, d, w = o[1], o[2], o[3]
                         dd = tuple(np.array(x) for x in d)
@@ -400,9 +575,18 @@ def impl(case):
                     for arr in cc + dd + (ww or ()):       # the caller reuses its buffers after the fit
                         arr[...] = arr * -2.0 + 7.0
                     return est
+                exempt = ("force_coords",) if which == "vs2d" else ()       # documented: VectorSpline2D.fit stores the force positions there
+                params0 = C.params_state(g, exempt)
                 for ds in sets:
                     fit(g, ds)
-                    g.predict(qq)
+                    if C.params_state(g, exempt) != params0:
+                        raise RuntimeError("hyper-parameters (get_params) changed by fit")
+                    try:
+                        g.predict(qq)
+                    except NotFittedError:
+                        raise
+                    except Exception:  # noqa: BLE001  (e.g. fewer data than neighbours: predicting may fail, fitting again must still work)
+                        pass
                 got = g.predict(qq)
                 fresh = fit(_build_real(which, sets[0][0] if which == "vs2d" else None), sets[-1])
                 exp = fresh.predict(qq)
@@ -416,7 +600,7 @@ def impl(case):
 
 def compare(case, io, mo):
     fn = case["fn"]
-    if fn in ("purity", "reject", "unfitted", "history-real"):
+    if fn in ("purity", "reject", "unfitted", "history-real", "objstate", "reconf"):
         return "ok"
     if fn == "cfi":
         if mo == "accepted" or io == "accepted":
@@ -433,8 +617,24 @@ def compare(case, io, mo):
 def oracle(case, io):
     fn = case["fn"]
     a = case["args"]
-    if C.is_err(io) and fn in ("purity", "history-real"):
+    if fn == "reconf" and not C.is_err(io):
+        r = io[1]
+        if not r["same"]:
+            return f"{a[0]}: an object reconfigured with {a[2]} ({'after use' if a[3] else 'before use'}) behaves differently from a fresh one built with the same parameters"
+        if not r["params"]:
+            return f"{a[0]}: get_params after {a[2]} differs from a fresh object's"
+        return None
+    if C.is_err(io) and fn in ("purity", "history-real", "objstate", "reconf"):
         return f"{a[0]} failed: {io[1]}"
+    if C.is_err(io) and fn == "history" and "hyper-parameters" in str(io[1]):
+        return f"history of {a[0][0]}: {io[1]}"
+    if fn == "objstate":
+        r = io[1]
+        if r["changed_by"]:
+            return f"{a[0]}: the object's state (attributes / hyper-parameters / nested estimators) was changed by the query '{r['changed_by']}'"
+        if not r["repeat"]:
+            return f"{a[0]}: the first query answers differently when repeated after the other queries"
+        return None
     if fn == "purity":
         r = io[1]
         if r["mutated"]:
@@ -471,7 +671,7 @@ def oracle(case, io):
 
 
 def nontrivial(case, io):
-    return not (C.is_err(io) and case["fn"] in ("purity", "history-real"))
+    return not (C.is_err(io) and case["fn"] in ("purity", "history-real", "objstate", "reconf"))
 
 
 def finding_key(case, io):
